@@ -322,6 +322,56 @@ pub fn codec_step(w: &mut World, case: &CodecCase) {
                 Out::Panic(p) => w.violate("C04", "panic", bk, "decode-claims", "flatten", p),
             }
         }
+        CodecCase::JsonTyped { seed } => {
+            w.stats.bump("op:codec:json-typed");
+            let v = backend::TypedClaims::from_seed(*seed, 2, false);
+            let want = match serde_json::to_vec(&v) {
+                Ok(x) => x,
+                Err(_) => return,
+            };
+            w.log.update(&want);
+            let generic: Result<backend::TypedClaims, String> = serde_json::from_slice(&want).map_err(|e| e.to_string());
+            w.stats.distinct.insert(format!("json-typed|wide={}|child={}|generic-reads={}", v.serial > u64::MAX as u128, v.child.is_some(), generic.is_ok()));
+            match backend::json_typed(&v, &want) {
+                Out::Ok((p, f, dp, df)) => {
+                    for (what, enc, dec) in [("payload", p, dp), ("footer", f, df)] {
+                        if enc != want {
+                            w.violate("C14", "json-wrapper-not-transparent", bk, &format!("encode-json-{what}"), "typed", format!("Json<T> wrote {} but serde_json::to_vec gives {}", truncate(&String::from_utf8_lossy(&enc), 100), truncate(&String::from_utf8_lossy(&want), 100)));
+                        }
+                        // transparent: the wrapper reads exactly what serde_json itself reads from these bytes
+                        match (&dec, &generic) {
+                            (Ok(a), Ok(b)) if a == b => {}
+                            (Err(_), Err(_)) => w.stats.bump("codec:document-refused-by-serde-json-too"),
+                            _ => w.violate("C14", "json-wrapper-not-transparent", bk, &format!("decode-json-{what}"), "typed", format!("Json<T> reads {} where serde_json reads {}", truncate(&format!("{dec:?}"), 100), truncate(&format!("{generic:?}"), 100))),
+                        }
+                    }
+                }
+                Out::Err(e) => w.violate("C14", "json-wrapper-not-transparent", bk, "encode-json", "typed", format!("{e:?} for a value serde_json writes as {}", truncate(&String::from_utf8_lossy(&want), 120))),
+                Out::Panic(p) => w.violate("C04", "panic", bk, "encode-json", "typed", p),
+            }
+        }
+        CodecCase::JsonRawText { text } => {
+            w.stats.bump("op:codec:json-raw-text");
+            w.log.update(text.as_bytes());
+            if serde_json::value::RawValue::from_string(text.clone()).is_err() {
+                w.stats.bump("codec:not-a-json-text");
+                return;
+            }
+            match backend::json_raw_text(text) {
+                Out::Ok((p, f, dp, df)) => {
+                    for (what, enc, dec) in [("payload", p, dp), ("footer", f, df)] {
+                        if enc != text.as_bytes() {
+                            w.violate("C14", "json-wrapper-not-transparent", bk, &format!("encode-json-{what}"), "raw-text", format!("Json<Box<RawValue>> wrote {} for the text {}", truncate(&String::from_utf8_lossy(&enc), 100), truncate(text, 100)));
+                        }
+                        if dec.as_deref() != Ok(text.as_str()) {
+                            w.violate("C14", "json-wrapper-not-transparent", bk, &format!("decode-json-{what}"), "raw-text", format!("Json<Box<RawValue>> reads {} from {}", truncate(&format!("{dec:?}"), 100), truncate(text, 100)));
+                        }
+                    }
+                }
+                Out::Err(e) => w.violate("C14", "json-wrapper-not-transparent", bk, "encode-json", "raw-text", format!("{e:?} for {}", truncate(text, 120))),
+                Out::Panic(p) => w.violate("C04", "panic", bk, "encode-json", "raw-text", p),
+            }
+        }
         CodecCase::JsonTransparent { value } => {
             w.stats.bump("op:codec:json-transparent");
             w.stats.distinct.insert(format!("json-transparent|{}", match value { serde_json::Value::Object(_) => "object", serde_json::Value::Array(_) => "array", serde_json::Value::String(_) => "string", serde_json::Value::Null => "null", _ => "scalar" }));
